@@ -125,6 +125,8 @@ def parse_real(case):
 
 
 def stim_rows(n_bits, seed):
+    if n_bits == 0:      # no assignable row (a changed reader may lose every input port): one empty stimulus column
+        return np.zeros((0, 1), dtype=np.uint8)
     if n_bits <= 10:
         return np.array([[(v >> j) & 1 for v in range(2 ** n_bits)] for j in range(n_bits)], dtype=np.uint8).reshape(n_bits, -1)
     rs = np.random.RandomState(seed)
